@@ -40,20 +40,20 @@ RULE = ("cases drawn by seeded sampling over group {tableau, errw, order, accura
         "degenerate} x method {euler, rk4, rk38, rk23, rk45} x ODE family x grid kind x direction x tolerance setting x state layout; "
         "non-trivial = the right-hand side was called at least (stages x intervals) times, the call history was replayed completely by the "
         "lockstep model, and the deciding comparison of the group was evaluated on a non-constant solution")
-MIN_NONTRIVIAL = {"quick": 1000, "thorough": 10000}
+MIN_NONTRIVIAL = {"quick": 2000, "thorough": 15000}
 REQUIRED_COUNTERS = {
-    "quick": {"tableaus_identified": 120, "error_weight_sets_identified": 60, "histories_replayed": 3000, "replayed_euler": 250,
-              "replayed_rk4": 250, "replayed_rk38": 250, "replayed_rk23": 800, "replayed_rk45": 1000, "steps_rejected": 500,
-              "steps_zero_length": 800, "threshold_probes": 600, "rejections_probed": 300, "controller_probes": 600,
-              "order_conditions_evaluated": 1500, "order_tests": 150, "accuracy_compared": 250, "accuracy_resolved_steps": 100,
-              "metamorphic_compared": 450, "tuple_state_cases": 150, "degenerate_grids": 40, "y0_bitwise_checked": 3000,
-              "default_method_calls": 5},
-    "thorough": {"tableaus_identified": 1200, "error_weight_sets_identified": 600, "histories_replayed": 30000, "replayed_euler": 2500,
-                 "replayed_rk4": 2500, "replayed_rk38": 2500, "replayed_rk23": 8000, "replayed_rk45": 10000, "steps_rejected": 5000,
-                 "steps_zero_length": 8000, "threshold_probes": 6000, "rejections_probed": 3000, "controller_probes": 6000,
-                 "order_conditions_evaluated": 15000, "order_tests": 1500, "accuracy_compared": 2500, "accuracy_resolved_steps": 1000,
-                 "metamorphic_compared": 4500, "tuple_state_cases": 1500, "degenerate_grids": 40, "y0_bitwise_checked": 30000,
-                 "default_method_calls": 50},
+    "quick": {"tableaus_identified": 200, "error_weight_sets_identified": 80, "histories_replayed": 5000, "replayed_euler": 600,
+              "replayed_rk4": 600, "replayed_rk38": 600, "replayed_rk23": 1400, "replayed_rk45": 2000, "steps_rejected": 1500,
+              "steps_zero_length": 2000, "threshold_probes": 900, "rejections_probed": 400, "controller_probes": 900,
+              "order_conditions_evaluated": 2200, "order_tests": 350, "accuracy_compared": 650, "accuracy_resolved_steps": 300,
+              "metamorphic_compared": 900, "tuple_state_cases": 400, "degenerate_grids": 40, "y0_bitwise_checked": 5000,
+              "default_method_calls": 20},
+    "thorough": {"tableaus_identified": 1400, "error_weight_sets_identified": 700, "histories_replayed": 40000, "replayed_euler": 4500,
+                 "replayed_rk4": 4500, "replayed_rk38": 4500, "replayed_rk23": 11000, "replayed_rk45": 16000, "steps_rejected": 12000,
+                 "steps_zero_length": 16000, "threshold_probes": 8000, "rejections_probed": 4000, "controller_probes": 8000,
+                 "order_conditions_evaluated": 17000, "order_tests": 2400, "accuracy_compared": 5000, "accuracy_resolved_steps": 2500,
+                 "metamorphic_compared": 7000, "tuple_state_cases": 3300, "degenerate_grids": 40, "y0_bitwise_checked": 40000,
+                 "default_method_calls": 300},
 }
 ASSUMPTIONS = [
     "ts strictly monotone, 2 <= nt <= 9 (plus the directed degenerate grids: one point, repeated points), |t| <= 12, total span <= 10",
@@ -72,7 +72,8 @@ BUDGET = {"quick": {"worker_timeout": 600, "case_timeout": 60}, "thorough": {"wo
 METHODS = ["euler", "rk4", "rk38", "rk23", "rk45"]
 FIXED = ("euler", "rk4", "rk38")
 ADAPTIVE = ("rk23", "rk45")
-CALL_BUDGET = 400000
+CALL_BUDGET = 20000     # right-hand-side calls per solve (largest seen on the unchanged tree: 724); more = 'does not terminate'
+SMALL_BUDGET = 2000      # scripted / single-step solves (largest seen: 65)
 
 # ------------------------------------------------------------------------------------------------ literature tableaus
 # Kutta 1901 (classical RK4 and the 3/8 rule), Bogacki & Shampine 1989 (3(2) pair, FSAL), Dormand & Prince 1980 (5(4) pair, FSAL)
@@ -501,6 +502,7 @@ def run_solver(obs, key, rule, ts, y0, method, params=(), opts=None, budget=CALL
         return spy, None
     obs.count("rhs_calls", spy.n)
     obs.count("solves")
+    _track(obs, "max_calls_per_solve", spy.n)
     return spy, yt
 
 
@@ -767,7 +769,7 @@ def cases(seed, tier):
         out.append(d)
     # 1. scripted basis slopes: identification of c, A, b
     n = 0
-    for rep in range(4 if q else 40):
+    for rep in range(6 if q else 40):
         for m in METHODS:
             for direction in ("inc", "dec"):
                 for var in ("exact", "generic", "tuple", "f32"):
@@ -775,7 +777,7 @@ def cases(seed, tier):
                     n += 1
     # 2. error weights through the controller
     n = 0
-    for rep in range(10 if q else 100):
+    for rep in range(12 if q else 100):
         for m in ADAPTIVE:
             for direction in ("inc", "dec"):
                 for var in ("abs", "rel"):
@@ -783,7 +785,7 @@ def cases(seed, tier):
                     n += 1
     # 3. one-step order
     n = 0
-    for rep in range(8 if q else 80):
+    for rep in range(16 if q else 100):
         for m in METHODS:
             for fam in ["linear", "logistic", "bernoulli"]:
                 add("order", n, method=m, family=fam, dir="inc" if (n + rep) % 3 else "dec")
@@ -791,7 +793,7 @@ def cases(seed, tier):
     # 4. accuracy of the adaptive methods
     n = 0
     tolnames = list(TOLS)
-    for rep in range(14 if q else 150):
+    for rep in range(40 if q else 300):
         for m in ADAPTIVE:
             for fam in FAMILIES:
                 rng = random.Random(sub_seed(seed, "c07acc", n))
@@ -803,7 +805,7 @@ def cases(seed, tier):
                 n += 1
     # 5. accuracy/refinement of the fixed-step methods
     n = 0
-    for rep in range(6 if q else 60):
+    for rep in range(14 if q else 100):
         for m in FIXED:
             for fam in FAMILIES:
                 rng = random.Random(sub_seed(seed, "c07fix", n))
@@ -812,7 +814,7 @@ def cases(seed, tier):
                 n += 1
     # 6. metamorphic relations
     n = 0
-    for rep in range(4 if q else 40):
+    for rep in range(8 if q else 60):
         for m in METHODS:
             for fam in FAMILIES:
                 rng = random.Random(sub_seed(seed, "c07meta", n))
@@ -886,7 +888,7 @@ def run_tableau(desc, obs):
     else:
         y0_in = y0
     opts = {} if m in FIXED else {"atol": 1e6, "rtol": 0.0}
-    res = solve_and_replay(obs, key, m, rule, ts, y0_in, opts=opts)
+    res = solve_and_replay(obs, key, m, rule, ts, y0_in, opts=opts, budget=SMALL_BUDGET)
     if res is None:
         obs.nontrivial = True
         return
@@ -1042,7 +1044,7 @@ def run_errw(desc, obs):
             alpha = target * scale0 / (h0 * abs(Esum))
         else:
             alpha = 1e6 * scale0 / h0
-        res = solve_and_replay(obs, key, m, make_rule(alpha), ts, y0, opts={"atol": atol, "rtol": rtol}, budget=5000)
+        res = solve_and_replay(obs, key, m, make_rule(alpha), ts, y0, opts={"atol": atol, "rtol": rtol}, budget=SMALL_BUDGET)
         if res is None or not res[2].complete:
             obs.nontrivial = True
             return
@@ -1077,7 +1079,7 @@ def run_errw(desc, obs):
         if abs(Esum) > 1e-12 and var == "abs":
             for side, tgt in (("below", 1 - 1e-7), ("above", 1 + 1e-7)):
                 alpha_t = tgt * scale0 / (h0 * abs(Esum))
-                r2 = solve_and_replay(obs, key, m, make_rule(alpha_t), ts, y0, opts={"atol": atol, "rtol": rtol}, budget=5000)
+                r2 = solve_and_replay(obs, key, m, make_rule(alpha_t), ts, y0, opts={"atol": atol, "rtol": rtol}, budget=SMALL_BUDGET)
                 if r2 is None or not r2[2].complete:
                     obs.nontrivial = True
                     return
@@ -1209,7 +1211,7 @@ def run_order(desc, obs):
         def rule(idx, t, y, *pp):
             return fam.fcn(t, y, *pp)
         res = solve_and_replay(obs, key, m, rule, ts, fam.y0, params=fam.params,
-                               opts=({"atol": 1e6, "rtol": 0.0} if m in ADAPTIVE else {}))
+                               opts=({"atol": 1e6, "rtol": 0.0} if m in ADAPTIVE else {}), budget=SMALL_BUDGET)
         if res is None or not res[2].complete:
             obs.nontrivial = True
             return
